@@ -245,6 +245,125 @@ def noBoundRecs : List (PRec Str) :=
 example : (prWrite tinyCodec noBoundRecs).isSome = true ∧
     (prWrite tinyCodec noBoundRecs).bind (prRead tinyCodec tinyView) = none := by decide
 
+/-! ## (6) CSV tables of `PackingStatistics` -/
+
+/-- **csv_roundtrip_statistics** (`PackingStatistics`, table level, modulo the embedded moptipy codecs) — for
+every finite list of statistics records in the domain `PSDomain` (records as `from_packing_results`
+produces them: accepted by the constructor, all over the same objectives and the same bin-bound keys — all in
+the scope `bins.lowerBound`, at least one —, sample size of every objective's statistics = `n` of the end
+statistics; records may differ in algorithm / instance / optimised objective / encoding / budgets inside the
+opaque end statistics), if the writer produces the table then the reader returns exactly the records
+written, in file order.  `PSDomain.codec` and `PSDomain.ss` are the explicit assumptions that moptipy's
+`EndStatistics` and pycommons' `SampleStatistics` CSV codecs round-trip (the former fails for tables that mix
+records with and without `goal_f`: known finding `stats_goal_mixed_moptipy`). -/
+theorem csv_roundtrip_statistics {ES SS : Type} (C : Codec ES) (S : SsCodec SS) (V : EsView ES SS)
+    (rs : List (PSRec ES SS)) (D : PSDomain C S V rs) (t : Table) (hw : psWrite C S rs = some t) :
+    psRead C S V t = some rs :=
+  psRead_psWrite C S V rs D t hw
+
+/-- the layout clause for the statistics reader: on a header `embedded ++ four fixed ++ bin bounds ++ per
+objective (lower bound, statistics columns, upper bound)` `__init__` removes the embedded columns, the four
+fixed ones, the bin bounds and the objective bounds from the dictionary **before** it selects, per objective
+name derived from the bound columns, the remaining columns in that objective's scope (adding the `n` column of
+the end statistics) — in any other order `<objective>.lowerBound` would be taken for a statistics column. -/
+theorem csv_stat_reader_layout (keys A B ks : List Str) (St : Str → List Str) (idxN : Nat)
+    (hn : (A ++ fixedTitles ++ B ++ ks.flatMap (statTitles St)).Nodup) (hA : ∀ t ∈ A, t ∈ keys)
+    (hdisj : ∀ k ∈ keys, k ∉ fixedTitles ++ B ++ ks.flatMap (statTitles St))
+    (hbb : ∀ k ∈ B, BBKey k) (hbne : B ≠ []) (hBsorted : B.Pairwise (· < ·))
+    (hKsorted : ks.Pairwise (· < ·)) (hobj : ∀ o ∈ ks, ObjName o) (hone : ks ≠ [])
+    (hscope : ∀ o ∈ ks, ∀ t ∈ St o, (scopeUse o t).isSome)
+    (hnb : ∀ o ∈ ks, ∀ t ∈ St o, isBoundKey t = false)
+    (hSne : ∀ o ∈ ks, St o ≠ [])
+    (hnoN : ∀ o ∈ ks, kN ∉ (St o).filterMap (scopeUse o))
+    (hidx : A.zipIdx.lookup kN = some idxN) :
+    psSetup keys (A ++ fixedTitles ++ B ++ ks.flatMap (statTitles St)).zipIdx =
+      some ⟨A.zipIdx, A.length + 2, A.length + 3, A.length + 1, A.length, B.zipIdx (A.length + 4),
+        sortPairs (((ks.flatMap (statTitles St)).zipIdx (A.length + 4 + B.length)).filter (fun c => isBoundKey c.1)),
+        ks.map (fun o => (o, selOf o (((ks.flatMap (statTitles St)).zipIdx (A.length + 4 + B.length)).filter
+          (fun c => !isBoundKey c.1)) ++ [(kN, idxN)]))⟩ :=
+  psSetup_header keys A B ks St idxN hn hA hdisj hbb hbne hBsorted hKsorted hobj hone hscope hnb hSne hnoN hidx
+
+/-! ### non-vacuity for the statistics domain -/
+
+/-- end statistics = (algorithm, n = 2); statistics = one integer, written in the single-value format -/
+def tinyEs : Codec Str where
+  titles _ := ["algorithm".toList, kN]
+  row _ r := [r, "2".toList]
+  keys := ["algorithm".toList, kN, "encoding".toList]
+  read f := f "algorithm".toList
+
+def tinySs : SsCodec Int where
+  titles o _ := [o]
+  row _ _ s := [showInt s]
+  read o f := (f o).bind parseInt?
+  nCell _ := "2".toList
+
+def tinyEsView : EsView Str Int := ⟨fun _ => sBinCount, fun _ s => decide (s = 5), id, id⟩
+
+theorem tinyEs_roundTrips (data : List Str) : tinyEs.RoundTrips data where
+  nodup := by simp only [tinyEs]; decide
+  sub := by simp [tinyEs]
+  len := by simp [tinyEs]
+  back := by
+    intro r _ f h _
+    exact h ("algorithm".toList, r) (by simp [tinyEs])
+
+theorem scopeUse_self (o : Str) : scopeUse o o = some o := by
+  unfold scopeUse
+  have : ¬ ((o ++ ['.']).isPrefixOf o = true) := by
+    rw [List.isPrefixOf_iff_prefix]
+    intro ⟨rest, hr⟩
+    have := congrArg List.length hr
+    simp at this
+  simp [this]
+
+theorem tinySs_roundTrips (o : Str) (ho : ObjName o) (hn : o ≠ kN) (col : List Int) : tinySs.RoundTrips o col where
+  ne := by simp [tinySs]
+  scope := by simp [tinySs, scopeUse_self]
+  useNodup := by simp [tinySs, scopeUse_self]
+  noN := by simp [tinySs, scopeUse_self]; exact fun e => hn e.symm
+  noBound := by simp [tinySs]; exact ho.2.2.2
+  len := by simp [tinySs]
+  back := by
+    intro s _ f h _ _
+    obtain ⟨u, hu, hf⟩ := h (o, showInt s) (by simp [tinySs])
+    rw [scopeUse_self] at hu
+    cases hu
+    simp [tinySs, hf, parseInt?_showInt]
+
+def demoStats : List (PSRec Str Int) :=
+  [⟨"a1".toList, 10, 5, 100, 50, [(sBinCount, 5), ("binCountAndEmpty".toList, 517)],
+      [(scopeKey sBinCount sLower, 1), (scopeKey sBinCount sUpper, 9),
+       (scopeKey "binCountAndEmpty".toList sLower, 100), (scopeKey "binCountAndEmpty".toList sUpper, 1000)],
+      [(sBinsLB, 2), ("bins.lowerBound.damv".toList, 1)]⟩,
+   ⟨"a2".toList, 20, 7, 10, 5, [(sBinCount, 5), ("binCountAndEmpty".toList, 600)],
+      [(scopeKey sBinCount sLower, 3), (scopeKey sBinCount sUpper, 9),
+       (scopeKey "binCountAndEmpty".toList sLower, 100), (scopeKey "binCountAndEmpty".toList sUpper, 1000)],
+      [(sBinsLB, 3), ("bins.lowerBound.damv".toList, 2)]⟩]
+
+example : PSDomain tinyEs tinySs tinyEsView demoStats where
+  ok := by decide
+  canon := by decide
+  bounds := by decide
+  objName := by decide
+  bbKey := by decide
+  bbSome := by decide
+  commonObj := by decide
+  commonBB := by decide
+  codec := tinyEs_roundTrips _
+  ss := by
+    intro o ho
+    have hk : psObjKeys demoStats = [sBinCount, "binCountAndEmpty".toList] := by decide
+    rw [hk] at ho
+    simp only [List.mem_cons, List.not_mem_nil, or_false] at ho
+    rcases ho with rfl | rfl
+    · exact tinySs_roundTrips _ (by decide) (by decide) _
+    · exact tinySs_roundTrips _ (by decide) (by decide) _
+  nCell := by decide
+  keysDisj := by decide
+
+example : (psWrite tinyEs tinySs demoStats).isSome = true := by decide
+
 end Csv
 
 namespace Text
